@@ -269,6 +269,38 @@ pub fn sites(thorough: bool) -> Vec<Site> {
             Ok(())
         }),
     );
+    for pci in [false, true] {
+        add(
+            if pci { "VIOT offsets when PCI ranges precede a later IOMMU (48 + 16 + 24n)" } else { "VIOT offsets when MMIO endpoints precede a later IOMMU (48 + 16 + 24n)" },
+            2726,
+            &[2730, 2731, 2740, 5500],
+            false,
+            Box::new(move |n| {
+                let mut t = viot::VIOT::new(c().oem_id(), c().oem_table_id(), c().oem_rev());
+                let first = t.add_virtio_mmio_iommu(viot::VirtIoMmioIommu::new(1));
+                for i in 0..n {
+                    if pci {
+                        t.add_pci_range(viot::PciRange::new(viot::PciDevice::new(0, 0, 0, 0), viot::PciDevice::new(0, 1, 0, 0), &first));
+                    } else {
+                        t.add_mmio_endpoint(viot::MmioEndpoint::new(i as u32, i, &first));
+                    }
+                }
+                let second = t.add_virtio_mmio_iommu(viot::VirtIoMmioIommu::new(2));
+                t.add_mmio_endpoint(viot::MmioEndpoint::new(7, 8, &second));
+                ser(&t)
+            }),
+            Box::new(|b, n| {
+                walk_ok(&tables::topo::Viot, b)?;
+                let ep = b.len() - 24;
+                let want = 48 + 16 + 24 * n;
+                let got = rd16(b, ep + 16) as u64;
+                if got != want {
+                    return Err(format!("last endpoint's output node field is {} but the IOMMU it was built from starts at {}", got, want));
+                }
+                Ok(())
+            }),
+        );
+    }
     add(
         "VIOT node count (2-byte count)",
         u64::MAX,
@@ -435,6 +467,7 @@ pub fn run(ctx: &'static Ctx) {
         }
     }
     let mut nsite = 0;
+    let mut conservative: Vec<Value> = vec![];
     for (legname, rows) in &legs {
         for r in rows {
             ctx.tr(1);
@@ -450,7 +483,8 @@ pub fn run(ctx: &'static Ctx) {
                 (_, "skipped") => {}
                 (true, "ok") | (false, "panic") => {}
                 (true, "panic") => {
-                    ctx.violation_sized(&format!("oversize:{}:refused-at-max", site), n, || format!("[{}] {} = {} (field maximum {}) refused: {}", legname, site, n, r["max"], r["detail"]), rep);
+                    // the property forbids wrapping, it does not oblige the crate to accept everything that fits: noted, not judged
+                    conservative.push(json!({"site": site, "n": n, "build": legname, "detail": r["detail"]}));
                 }
                 (true, _) => {
                     ctx.violation_sized(&format!("oversize:{}:bad-at-max", site), n, || format!("[{}] {} = {} (within the field maximum {}) gives inconsistent bytes: {}", legname, site, n, r["max"], r["detail"]), rep);
@@ -467,6 +501,7 @@ pub fn run(ctx: &'static Ctx) {
         }
     }
     ctx.engine("E3.sites", json!({"sites": sites(thorough).iter().map(|s| s.name).collect::<Vec<_>>(), "legs": ["release (no overflow checks)", "checked (overflow-checks + debug-assertions)"], "evaluations": nsite}));
+    ctx.set("conservative_refusals_not_judged", json!(conservative));
     ctx.force_sample(legs[0].1.first().cloned().unwrap_or(json!(null)));
     ctx.force_sample(legs[0].1.get(5).cloned().unwrap_or(json!(null)));
     ctx.set("sites_enumerated", json!("every caller-controlled narrowing found by reading the crate (DESIGN.md C18)"));
